@@ -92,7 +92,10 @@ Definition pure_calls : list string :=
    the last owner frees it): operator new / operator delete act on memory that
    no other thread can reach before this call publishes it to its own caller. *)
 Definition owner_calls : list string :=
-  [ "_Znwm"; "_ZdlPv"; "_ZdlPvm" ].
+  [ "_Znwm"; "_ZdlPv"; "_ZdlPvm";
+    (* only on the error stubs of a policy whose error facet throws (the errstub routes): the exception object is fresh memory
+       no other thread can reach; __cxa_throw unwinds the calling thread's own stack; abort() ends the process *)
+    "__cxa_allocate_exception"; "__cxa_throw"; "abort" ].
 
 (* The only objects reached through a pointer loaded from the caller's object
    that such a route may modify: the shared_ptr control block (use/weak counts;
@@ -155,10 +158,17 @@ Definition shared_observe (a : access) : bool :=
 Definition smart_route_names : list string :=
   [ "call_shared"; "shared_ctor"; "shared_copy"; "shared_cast"; "shared_make" ].
 
-Definition is_smart (r : route) : bool :=
-  mem_string (r_name r) smart_route_names || String.prefix "thunk_skick" (r_name r).
+(* the errstub routes: what the dispatch jump of an unresolvable call lands in (not_implemented_handler / ambiguous_handler), under a
+   policy whose error facet throws: builds the resolution_error on its own stack and in the fresh exception object, throws.
+   Held to the owner predicate: writes to fresh memory and the exception-runtime calls are allowed, writes to anything
+   shared are not. *)
+Definition is_error_stub (r : route) : bool := String.prefix "errstub_" (r_name r).
 
-Definition is_call_route (r : route) : bool := String.prefix "call_" (r_name r).
+Definition is_smart (r : route) : bool :=
+  mem_string (r_name r) smart_route_names || String.prefix "thunk_skick" (r_name r) || is_error_stub r.
+
+Definition is_call_route (r : route) : bool :=
+  String.prefix "call_" (r_name r) || String.prefix "errcall_" (r_name r).
 
 (* THE SETTLED OBSERVATION (DESIGN.md, C16).  With a vptr_map policy the
    virtual_ptr constructor used to evaluate Policy::vptrs[index], i.e.
@@ -217,11 +227,20 @@ Definition route_present (l : list route) (n s v : string) : bool :=
   existsb (fun r => String.eqb (r_name r) n && String.eqb (r_shape r) s
                     && String.eqb (r_variant r) v) l.
 
+(* unresolvable calls under the throwing policy (shape thr): the two call routes in every variant, the four error stubs
+   in the optimised variants (at -O0 the std::visit machinery they throw through is not inlined and is not analysed) *)
+Definition expected_error_calls : list string := [ "errcall_uni"; "errcall_multi" ].
+Definition expected_error_stubs : list string :=
+  [ "errstub_gap_not_implemented"; "errstub_gap_ambiguous"; "errstub_amb_not_implemented"; "errstub_amb_ambiguous" ].
+Definition optimised_variants : list string := [ "O2"; "O2assert"; "O1" ].
+
 Definition routes_complete (l : list route) : bool :=
   forallb (fun v => forallb (fun s => forallb (fun n => route_present l n s v)
                                               expected_route_names)
                             expected_shapes)
-          expected_variants.
+          expected_variants
+  && forallb (fun v => forallb (fun n => route_present l n "thr" v) expected_error_calls) expected_variants
+  && forallb (fun v => forallb (fun n => route_present l n "thr" v) expected_error_stubs) optimised_variants.
 
 (* ------------------------------------------------------------------------- *)
 (** * 2. Threads over a shared store                                          *)
